@@ -314,7 +314,7 @@ def c13_docs(ctx):
             b = r.choice(bodies)
             if b.lstrip().startswith(delim):
                 b = "x" + b
-            body.append(r.choice(["", " ", "  ", "    ", "\t", "      "]) + b)
+            body.append(r.choice(["", " ", "  ", "    ", "\t", "      "]) + b + r.choice(["", "", " ", "\t", "  \t ", "\u3000"]))
         host = r.choice(["Background:\n", "Scenario: s\n", "Scenario Outline: o\n", "Rule: r\nScenario: s\n"])
         after = r.choice(["", "And next\n", "Examples:\n|a|\n", "Scenario: t\n", "@tag\nScenario: u\n", "Rule: z\n", "| row |\n", delim + "\nx\n" + delim + "\n"])
         nl = r.choice(["\n", "\n", "\r\n"])
@@ -763,6 +763,19 @@ def o_c16(ctx):
             a = res_of(blank + "\n" + base_src)
             if canon(a) != canon(shift_lines(base, 1)):
                 return {"what": "inserting a blank line at the top changes more than line numbers", "variant": blank + "\n" + base_src}
+        if "errors" in base:
+            # rejected documents: trailing blanks on a keyword / step / tag / table-row / delimiter line that is reported
+            # as unexpected change nothing either (the message quotes the trimmed line)
+            heads = ("Given ", "When ", "Then ", "And ", "But ", "* ", "Feature:", "Rule:", "Background:", "Scenario:", "Scenario Outline:",
+                     "Example:", "Examples:", "Scenarios:", "@", "|", '"""', "```")
+            for e in base["errors"][:4]:
+                i = e["location"]["line"] - 1
+                if 0 <= i < len(lines) and lines[i].strip().startswith(heads) and lines[i].strip():
+                    for pad_ in (" ", "\t", "  \t "):
+                        pad = lines[:]
+                        pad[i] = pad[i] + pad_
+                        if canon(res_of("\n".join(pad))) != canon(base):
+                            return {"what": "trailing blanks on the rejected line %d change the errors" % (i + 1), "variant": "\n".join(pad)}
         if "ok" not in base or not base["ok"].get("feature"):
             return None
         # classify lines: the kind under which each line reached the builder
@@ -1893,3 +1906,95 @@ def c18_long_lines(ctx):
 
 
 P.PROPS["C18"]["streams"].append(c18_long_lines)
+
+
+P.PROPS["C01"]["streams"].append(P.o_no_hang)
+
+
+# ---------------------------------------------------------------- round-4 strengthening
+
+def c02_blank_indentation(ctx):
+    """a line is the kind its text makes it whatever blanks stand before it: every Unicode blank Python's str.lstrip removes"""
+    blanks = [" ", "\t", "\x0b", "\x0c", "\x1c", "\x1f", "\x85", "\xa0", "\u1680", "\u2000", "\u2003", "\u2009", "\u200a", "\u2028", "\u2029", "\u202f", "\u205f", "\u3000"]
+    seqs = [w for w in S.kind_sequences(3)] + [["FeatureLine", "BackgroundLine", "StepLine", "ScenarioLine", "StepLine", "Empty", "StepLine", "TagLine", "ExamplesLine", "TableRow"],
+                                               ["TagLine", "FeatureLine", "RuleLine", "TagLine", "ScenarioLine", "StepLine", "DocStringSeparator", "Other", "DocStringSeparator"]]
+    r = rng("c02b")
+    srcs = []
+    for w in seqs:
+        if not w:
+            continue
+        for b in (r.sample(blanks, 3) if len(w) <= 3 else blanks):
+            srcs.append("".join((b * r.randint(1, 3)) + S.CANON[k] + "\n" for k in w))
+            srcs.append("".join(((b if i % 2 else "") + S.CANON[k] + "\n") if S.CANON[k] else (b + "\n") for i, k in enumerate(w)))
+    return e2e("blank-indentation", srcs, P.p_errors, nontrivial=lambda q, x: q[1][2] if "ok" in x else None)
+
+
+P.PROPS["C02"]["streams"].append(c02_blank_indentation)
+
+
+def c09_background_placeholders(ctx):
+    """background steps are not substituted: '<h>' in a background step's text, table or doc string stays as written"""
+    srcs = []
+    for lvl in ("feature", "rule", "both"):
+        bg = "    Given bg <a> and <b>\n      | <a> | x<b> |\n    And doc\n      \"\"\"<a>\n      <b> <a>\n      \"\"\"\n"
+        src = "Feature: f\n"
+        if lvl in ("feature", "both"):
+            src += "  Background:\n" + bg
+        if lvl in ("rule", "both"):
+            src += "  Rule: r\n  Background:\n" + bg
+        src += "  Scenario Outline: o <a>\n    When own <a> <b>\n    Examples:\n      | a | b |\n      | 1 | 2 |\n      | <b> | <a> |\n  Scenario: plain <a>\n    Then <b>\n"
+        srcs.append(src)
+    reqs = [("events", [False, False, True, False, [["u.feature", x]]]) for x in srcs]
+
+    def pr(r_, req=None):
+        if "envelopes" not in r_:
+            return {"outcome": outcome(r_)}
+        return [{"name": e["pickle"]["name"], "steps": [[st["text"], st.get("argument")] for st in e["pickle"]["steps"]]} for e in r_["envelopes"] if "pickle" in e]
+    return differential("background-placeholders", reqs, proj=pr, nontrivial=lambda q, x: q[1][4][0][1] if x.get("envelopes") else None,
+                        classify=lambda q, x: "bg", exhaustive=True)
+
+
+P.PROPS["C09"]["streams"].append(c09_background_placeholders)
+
+
+def c18_long_runs(ctx):
+    """look-ahead over tag, comment and blank lines never drops lines -- however long the run is"""
+    srcs = []
+    for n in ((70, 260, 600) if S.n_for(0, 1) == 0 else (70, 260, 600, 3000)):
+        run = "".join(("  @t%d\n" % i) if i % 3 == 0 else ("  # c%d\n" if i % 3 == 1 else "\n") % ((i,) if i % 3 == 1 else ()) for i in range(n))
+        srcs.append("Feature: f\n  Scenario: s\n    Given g\n  @first\n" + run + "  Scenario: t\n    Given h\n")
+        srcs.append("Feature: f\n  Scenario Outline: s\n    Given <a>\n  @first\n" + run + "  Examples:\n    | a |\n    | 1 |\n")
+        srcs.append("Feature: f\n  Scenario: s\n    Given g\n  @first\n" + run + "  Rule: r\n    Example: e\n      Given h\n")
+        srcs.append("Feature: f\n  Scenario: s\n    Given g\n  @first\n" + run + "    oops\n")
+    reqs = [("tokens", ["en", x]) for x in srcs]
+    return differential("long-look-ahead-runs", reqs, nontrivial=lambda q, r_: q[1][1][:200] if "ok" in r_ else None, classify=lambda q, r_: outcome(r_), exhaustive=True)
+
+
+P.PROPS["C18"]["streams"].append(c18_long_runs)
+
+
+def o_c15_stream(ctx):
+    """the stream API: a source's envelopes after other sources went through the same GherkinEvents equal those of a
+    fresh one, up to the offset of the shared id generator"""
+    impl = impl_mod()
+    pool = PERTURB[:8] + ["Feature: ok\n  Scenario: s\n    Given g\n", "Feature: bad\n  oops\n", "# language: xx-none\nFeature: f\n",
+                          "Feature: t\n  @a\n  Scenario Outline: o\n    Given <x>\n    Examples:\n      | x |\n      | 1 |\n"]
+    r = rng("c15s")
+    items = [([r.choice(pool) for _ in range(r.randint(1, 3))], r.choice(pool)) for _ in range(S.n_for(120, 1500))]
+
+    def check(it):
+        hist, tgt = it
+        whole = impl.events(False, True, True, False, [["h%d" % i, x] for i, x in enumerate(hist)] + [["t", tgt]])
+        prefix = impl.events(False, True, True, False, [["h%d" % i, x] for i, x in enumerate(hist)])
+        fresh = impl.events(False, True, True, False, [["t", tgt]])
+        if any("envelopes" not in x for x in (whole, prefix, fresh)):
+            return {"what": "stream raised: %r" % ([x.get("foreign") for x in (whole, prefix, fresh)],)}
+        got = whole["envelopes"][len(prefix["envelopes"]):]
+        if canon(shift_ids(got, prefix["idc"])) != canon(fresh["envelopes"]):
+            return {"what": "envelopes after a history differ from a fresh stream (modulo id offset %d)" % prefix["idc"],
+                    "after_history": shift_ids(got, prefix["idc"])[:3], "fresh": fresh["envelopes"][:3]}
+        return None
+    return oracle("stream-histories", items, check, describe=lambda it: [[h[:40] for h in it[0]], it[1][:60]])
+
+
+P.PROPS["C15"]["streams"].append(o_c15_stream)
